@@ -38,6 +38,13 @@ class Operator(abc.ABC):
         """
         raise NotImplementedError
 
+    @property
+    def children(self) -> typing.Sequence["Operator"]:
+        """
+        The operands of this operator; empty for a leaf.
+        """
+        return ()
+
     @abc.abstractmethod
     def __repr__(self) -> str:
         raise NotImplementedError
@@ -106,6 +113,10 @@ class PaddingOperator(Operator):
     def expand(self) -> typing.Set[int]:
         return set(map(self._pad, self._child.expand()))
 
+    @property
+    def children(self) -> typing.Sequence[Operator]:
+        return (self._child,)
+
     def _pad(self, x: int) -> int:
         r = self._padding
         return ((x + r - 1) // r) * r
@@ -144,6 +155,10 @@ class ConcatenationOperator(Operator):
 
     def expand(self) -> typing.Set[int]:
         return {sum(el) for el in itertools.product(*(x.expand() for x in self._children))}
+
+    @property
+    def children(self) -> typing.Sequence[Operator]:
+        return self._children
 
     def __repr__(self) -> str:
         return "concat(%s)" % ",".join(map(repr, self._children))
@@ -185,6 +200,10 @@ class RepetitionOperator(Operator):
 
     def expand(self) -> typing.Set[int]:
         return {sum(el) for el in itertools.combinations_with_replacement(self._child.expand(), self._k)}
+
+    @property
+    def children(self) -> typing.Sequence[Operator]:
+        return (self._child,)
 
     def __repr__(self) -> str:
         return "repeat(%d,%r)" % (self._k, self._child)
@@ -230,6 +249,10 @@ class RangeRepetitionOperator(Operator):
                 out.add(sum(el))
         return out
 
+    @property
+    def children(self) -> typing.Sequence[Operator]:
+        return (self._child,)
+
     def __repr__(self) -> str:
         return "repeat(<=%d,%r)" % (self._k_max, self._child)
 
@@ -260,6 +283,10 @@ class UnionOperator(Operator):
             out |= x.expand()
         return out
 
+    @property
+    def children(self) -> typing.Sequence[Operator]:
+        return self._children
+
     def __repr__(self) -> str:
         return "(%s)" % "|".join(map(repr, self._children))
 
@@ -278,50 +305,95 @@ class MemoizationOperator(Operator):
         self._expansion = None  # type: typing.Optional[typing.Set[int]]
 
     def modulo(self, divisor: int) -> typing.Set[int]:
-        try:
-            return self._modula[divisor]
-        except LookupError:
-            self._modula[divisor] = self._child.modulo(divisor)
+        if divisor not in self._modula:
+            self._memoize_operands_first(
+                lambda op: divisor in op._modula,
+                lambda op: op._modula.__setitem__(divisor, op._child.modulo(divisor)),
+            )
         return self._modula[divisor]
 
     @property
     def min(self) -> int:
         if self._min is None:
-            self._min = self._child.min
+            self._memoize_operands_first(lambda op: op._min is not None, MemoizationOperator._memoize_min)
+        assert self._min is not None
         return self._min
 
     @property
     def max(self) -> int:
         if self._max is None:
-            self._max = self._child.max
+            self._memoize_operands_first(lambda op: op._max is not None, MemoizationOperator._memoize_max)
+        assert self._max is not None
         return self._max
 
     def expand(self) -> typing.Set[int]:
         if self._expansion is None:
-            from time import monotonic
-
-            # Track the time and log occurrences that take a long time to help find bottlenecks in user code
-            # that accidentally relies on numerical expansion. This is mainly intended to help us transition
-            # Nunavut to the new solver API instead of numerical methods. It may be removed later.
-            started_at = monotonic()
-            self._expansion = self._child.expand()
-            elapsed = monotonic() - started_at
-            if elapsed > 2.0:  # pragma: no cover
-                _logger.info(
-                    "Numerical expansion took %.1f seconds; the result contains %d items:\n%s",
-                    elapsed,
-                    len(self._expansion),
-                    self._child,
-                    stack_info=True,
-                )
-            assert elapsed < _POISON_SLOW_EXPANSION_SECONDS
-
-            # Since we did an expansion anyway, the set must be compact,
-            # so we use this opportunity to validate the correctness of the solver.
-            # This may be removed easily since it has no visible effects.
-            validate_numerically(self)
-
+            self._memoize_operands_first(lambda op: op._expansion is not None, MemoizationOperator._memoize_expansion)
+        assert self._expansion is not None
         return self._expansion
+
+    @property
+    def children(self) -> typing.Sequence[Operator]:
+        return (self._child,)
+
+    def _memoize_operands_first(
+        self,
+        is_memoized: typing.Callable[["MemoizationOperator"], bool],
+        memoize: typing.Callable[["MemoizationOperator"], None],
+    ) -> None:
+        """
+        Operators are nested as deeply as the expression they represent (e.g., one level per field of a structure),
+        so evaluating an expression by plain recursion may exhaust the call stack. This method memoizes the requested
+        property of every memoization operator below this one that does not have it yet, operands before the operators
+        that use them, and then of this one. Each evaluation thus finds its operands memoized already,
+        and the depth of recursion does not depend on the depth of the expression.
+        """
+        visited = set()  # type: typing.Set[int]
+        pending = [(self, False)]  # type: typing.List[typing.Tuple[Operator, bool]]
+        while pending:
+            op, operands_done = pending.pop()
+            if operands_done:
+                assert isinstance(op, MemoizationOperator)
+                memoize(op)
+                continue
+            if id(op) in visited:
+                continue
+            visited.add(id(op))
+            if isinstance(op, MemoizationOperator):
+                if is_memoized(op):
+                    continue  # Which means that everything below is memoized, too, or is not needed.
+                pending.append((op, True))
+            pending.extend((x, False) for x in op.children)
+
+    def _memoize_min(self) -> None:
+        self._min = self._child.min
+
+    def _memoize_max(self) -> None:
+        self._max = self._child.max
+
+    def _memoize_expansion(self) -> None:
+        from time import monotonic
+
+        # Track the time and log occurrences that take a long time to help find bottlenecks in user code
+        # that accidentally relies on numerical expansion. This is mainly intended to help us transition
+        # Nunavut to the new solver API instead of numerical methods. It may be removed later.
+        started_at = monotonic()
+        self._expansion = self._child.expand()
+        elapsed = monotonic() - started_at
+        if elapsed > 2.0:  # pragma: no cover
+            _logger.info(
+                "Numerical expansion took %.1f seconds; the result contains %d items:\n%s",
+                elapsed,
+                len(self._expansion),
+                self._child,
+                stack_info=True,
+            )
+        assert elapsed < _POISON_SLOW_EXPANSION_SECONDS
+
+        # Since we did an expansion anyway, the set must be compact,
+        # so we use this opportunity to validate the correctness of the solver.
+        # This may be removed easily since it has no visible effects.
+        validate_numerically(self)
 
     def __repr__(self) -> str:
         return repr(self._child)  # Not sure if we should indicate our presence considering that we're a no-op
